@@ -65,6 +65,10 @@ CHECKS = {
          "TLC proves Pub . CKDpriv = CKDpub . Pub along all paths of depth <= 3 over {0, 1, 2^24, 2^31-1} x {normal, hardened}, metadata invariants, refusal of hardened-from-public, and that results are independent of the cache history for every order of up to 3-4 calls (two deliberately broken cache models violate it); each path, session, path-range spelling, extended-key text (bip32/49/84 on 48 networks) and Electrum derivation TLC prints is evaluated (HMAC by hmac, k*G by an affine reference cross-checked with pycoin both ways) and compared with hwif, secret_exponent, public_pair, chain_code, depth, fingerprint, child index on long-lived and fresh nodes; all 24 official xprv/xpub strings are reproduced first; 150 (1,500) seeded sessions (depth to ~40, random 31-bit indices) validated as traces with pycoin's real HMAC calls intercepted.",
          "Trusted: TLC/SANY, hmac/hashlib, the affine reference curve. The IL >= n branch (probability < 2^-127) is never entered. ExtKeyText.Versions snapshots pycoin.symbols (BTC/XTN/LTC match BIP32/SLIP-132). GRS-family text needs an absent library.",
          "DESIGN.md section 4 C09, notes/C09.md"),
+ "C17": ("TLA+ specs MsgText (UTF-8, compact size, digest term, base64 machine, compact-signature layout, armour Format/ParseSigned line machine), MsgEC/MsgSign (SEC 1 sign/verify/recover with recovery classes on toy curves, VerifyText total over signature-text classes); TLC lemmas; TLC-enumerated signing/verification cases replayed on MessageSigner with toy generators and on secp256k1 across 48 networks; recorded sessions validated by TLC trace spec",
+         "On toy curves with n < p (recovery ids 2 and 3 occur) TLC enumerates every key x nonce x digest class and proves that the compact signature recovers exactly the signer and verifies for no other recovery id, digest, key, address or key form, that the digest preimage is injective in (magic, message) and that ParseSigned(Format(..)) is the identity; every case and every malformed class (not base64, wrong length, header outside 27..34, r or s 0 or >= n, x = r + n >= p, no curve point, key at infinity) is replayed on pycoin's MessageSigner with an injected nonce (must return False, never raise) and on secp256k1 for keys x compressed/uncompressed x 14 message classes x 48 networks with cross-network/key/message probes; 2,000 seeded sessions validated as traces.",
+         "Trusted: TLC/SANY, hashlib, an independent affine secp256k1 evaluator; two real-world signed messages from the repository's tests as ground truth. secp256k1 arithmetic itself is not inside TLC (L1). GRS-family networks need an absent library. Messages with a bare CR or marker lines are outside the stated domain.",
+         "DESIGN.md section 4 C17, notes/C17.md"),
 }
 
 NOT_APPLICABLE = {
